@@ -193,6 +193,13 @@ Case gen_c02(uint64_t seed, int tier, bool quiesce)
   }
   c.cfg["cap"] = init;
   c.cfg["max"] = maxc;
+  // the largest buffer the queue can actually reach by doubling: C09's "maximum capacity" (for a maximum that is not
+  // a power-of-two multiple of the initial capacity the two differ, and what must happen in between is not stated)
+  int64_t reach = init;
+  while (reach * 2 <= maxc)
+  {
+    reach *= 2;
+  }
   int nops = static_cast<int>(r.range(quiesce ? 10 : 30, tier ? 400 : 250));
   int64_t cur = init;
   for (int i = 0; i < nops; ++i)
@@ -243,13 +250,13 @@ Case gen_c02(uint64_t seed, int tier, bool quiesce)
     }
     if (quiesce && r.chance(1, 12))
     {
-      int64_t n = r.chance(3, 4) ? std::max<int64_t>(8, maxc - r.range(0, std::max<int64_t>(1, maxc / 8))) : r.range(8, maxc);
+      int64_t n = r.chance(3, 4) ? std::max<int64_t>(8, reach - r.range(0, std::max<int64_t>(1, reach / 8))) : r.range(8, reach);
       c.ops.push_back(QOp{0, P_QUIESCE, n, 0});
     }
   }
   if (quiesce)
   {
-    c.ops.push_back(QOp{0, P_QUIESCE, std::max<int64_t>(8, maxc - r.range(0, std::max<int64_t>(1, maxc / 16))), 0});
+    c.ops.push_back(QOp{0, P_QUIESCE, std::max<int64_t>(8, reach - r.range(0, std::max<int64_t>(1, reach / 16))), 0});
   }
   return c;
 }
